@@ -193,15 +193,35 @@ func (w *srvWorld) prepare(sc *SrvScenario) {
 		}
 	}
 	need(1, false)
+	gens := []int{1}
+	nk := map[int]bool{1: false}
 	for i, o := range sc.Ops {
 		if o.Kind != "reload" {
 			continue
 		}
+		gens = append(gens, 2+i)
+		nk[2+i] = o.Fault == "nokey"
 		if w.backend == "cdb" || o.Full {
 			need(2+i, o.Fault == "nokey")
 		}
 		if o.Decoy && w.backend == "cdb" {
 			need(900+i, false)
+		}
+		if o.Decoy {
+			gens = append(gens, 900+i)
+			nk[900+i] = false
+		}
+	}
+	if w.backend != "cdb" {
+		// every diff a run can ask for, computed here: computing one inside the bubble would run
+		// the preprocessor's goroutines under the scheduler the first time only (the farm caches),
+		// which makes the trace depend on what the process did before
+		for _, a := range gens {
+			for _, b := range gens {
+				if a < b {
+					w.farm.Diff(a, nk[a], b, nk[b])
+				}
+			}
 		}
 	}
 }
